@@ -10,6 +10,7 @@ import random
 
 import numpy as np
 
+import c16_order
 import c16_scale
 import romsfiles as rf
 from coqbridge import fl
@@ -29,6 +30,10 @@ RULE = ("s2d: sample2D on generated fields (incl. exactly bilinear ones), masks 
         "and round numbers; a big release at one site plus one / a few reference rows near the corners, first / last / mid-table / scattered; blocks; uniform), "
         "every row checked against the solver tolerance and the round-trip bound; bit-exact recovery on dyadic affine grids; sample2D on up to 130000 "
         "positions in one call; ladim.main.main with lon/lat release tables of 5000 / 20000 rows (> 100000 instances written) and a 1200-step run, every instance checked. "
+        "order (fixed, after the scale cases, oracle only; c16_order.py): one lon/lat release table on a polar / rotated / dyadic affine grid run through ladim.main.main "
+        "in 8-9 arrangements each (order of the release columns incl. lat before lon and where release_time / mult / Z stand, header line vs names, rows of equal "
+        "release time permuted, mult = 2 on a row, spellings of times and numbers, order of the output variables, of the YAML sections and keys, of the variables "
+        "in the NetCDF file, grid in a file of its own): the release / output clauses decided per arrangement, and every row's trajectory equal to that of the usual one. "
         "Non-trivial = distinct (kind, grid type, outcome class) x position class that reaches interpolation or the Newton update.")
 TRUSTED = ["Coq 8.16.1 kernel + vm_compute", "hand-written model coq/Model/Geo.v tied by this correspondence",
            "numpy elementwise float64 arithmetic = the scalar formula per particle (glue)", "netCDF4 round trip of float64 coordinate arrays"]
@@ -153,6 +158,8 @@ def gen_cases(ctx):
     q = ctx.quick
     # fixed cases of realistic size first (they draw nothing from ctx.rng: the generated cases below are unchanged)
     out = c16_scale.gen_scale_cases(q)
+    # arrangements of the inputs that must not matter (fixed, right after the scale cases; c16_order.py)
+    out += c16_order.gen_order_cases(q)
     for k in range(70 if q else 700):
         out.append({"k": "s2d", "stream": "exact" if k % 2 == 0 else "general", "seed": rng.getrandbits(48)})
     # fixed seeds with the field stored in a narrow integer type (applies when the drawn field is not the bilinear one)
@@ -183,7 +190,8 @@ def gen_cases(ctx):
 
 def eval_case(desc, ctx):
     return {"s2d": eval_s2d, "binv": eval_binv, "grid": eval_grid, "gridbig": eval_gridbig, "e2e": eval_e2e,
-            "polar_explicit": eval_polar_explicit, "binv_explicit": eval_binv, "scale": c16_scale.eval_scale}[desc["k"]](desc, ctx)
+            "polar_explicit": eval_polar_explicit, "binv_explicit": eval_binv, "scale": c16_scale.eval_scale,
+            "order": c16_order.eval_order}[desc["k"]](desc, ctx)
 
 
 # ------------------------------------------------------------------------------------------------
